@@ -17,7 +17,9 @@ Targets == {"fn", "mod", "trait", "impl"}
 Toks == { Bare("no_deps"), Eq("no_deps", "false"), Bare("export"), Eq("export", "true"), Bare("unimock"), Eq("unimock", "false"),
           Eq("unimock", "maybe"), Bare("mockall"), Eq("mock_api", "Mk"), Bare("mock_api"), Bare("?Send"), Bare("?Sized"),
           Eq("debug", "false"), Bare("bogus"), Eq("bogus", "true"), Bare("delegate_by"), Eq("delegate_by", "Self"),
-          Eq("delegate_by", "ref"), Eq("delegate_by", "Borrow"), Eq("delegate_by", "Custom"), Eq("delegate_by", "type") }
+          Eq("delegate_by", "ref"), Eq("delegate_by", "Borrow"), Eq("delegate_by", "Custom"), Eq("delegate_by", "type"),
+          \* the `?` prefix belongs to `?Send` alone: in front of any other option name it makes an unknown option
+          Bare("?no_deps"), Bare("?export"), Eq("?debug", "false") }
 TokLists == UNION { [1..n -> Toks] : n \in 0..MaxToks }
 Leads(t) == CASE t \in {"fn", "mod"} -> {"T", "pub T", "pub(crate) T", "", "pub"}
               [] t = "trait" -> {"", "TImpl", "pub TImpl"}
@@ -103,7 +105,7 @@ Fault(c) ==
     [] c.kind = "deps" /\ c.mode = "impl" /\ c.second.base = "generic" /\ c.ty.wrap = <<"ref">>
        /\ c.ty.base \in {"ident", "path", "inst", "tuple"} -> "concrete-in-impl"
     [] c.kind = "attr" /\ c.attr.lead \in {"T", "pub T", "TImpl"} /\ c.attr.trail = "" /\ Len(c.attr.opts) = 1
-       /\ c.target # "impl" /\ c.attr.opts[1].k = "bogus" /\ ~(c.target = "trait" /\ c.attr.lead = "") -> "unknown-option"
+       /\ c.target # "impl" /\ c.attr.opts[1].k \in {"bogus", "?no_deps", "?export", "?debug"} /\ ~(c.target = "trait" /\ c.attr.lead = "") -> "unknown-option"
     [] c.kind = "attr" /\ c.attr.lead \in {"T", "pub T"} /\ c.attr.trail = "" /\ Len(c.attr.opts) = 1
        /\ c.attr.opts[1].k = "delegate_by" /\ ParseOpt(c.attr.opts[1]).err = "" -> "unsupported-option"
     [] c.kind = "attr" /\ c.target = "trait" /\ c.attr.lead = "" /\ c.attr.trail = "" /\ Len(c.attr.opts) = 1
@@ -115,7 +117,10 @@ Fault(c) ==
     [] c.kind = "trait" /\ c.deleg = "custom-only" /\ c.extra = "none" -> "custom-delegate-without-target-trait"
     [] c.kind = "trait" /\ c.deleg = "target-only" /\ c.extra = "none" -> "target-trait-without-delegate-by"
     [] OTHER -> ""
-OptName(c) == IF c.kind = "attr" /\ Len(c.attr.opts) >= 1 THEN c.attr.opts[1].k ELSE ""
+\* (the name as the diagnostic quotes it: without the `?`)
+OptName(c) == IF c.kind = "attr" /\ Len(c.attr.opts) >= 1
+              THEN (CASE c.attr.opts[1].k = "?no_deps" -> "no_deps" [] c.attr.opts[1].k = "?export" -> "export" [] c.attr.opts[1].k = "?debug" -> "debug" [] OTHER -> c.attr.opts[1].k)
+              ELSE ""
 
 AllCases == AttrCasesOK \cup ItemCases \cup DepsCasesOK \cup TraitCases \cup PatCasesOK \cup GenCases \cup ImplPathCases
 
